@@ -123,8 +123,7 @@ pub fn bytes_case(ctx: &mut Ctx, rng: &mut Rng) {
     let (_x2, v2, o2, _r2) = observe(&text, false, false, &dump);
     match (&got, &o2) {
         (None, _) => {
-            // `decode` is external: the model's parseBytes panics exactly when it yields nothing
-            ctx.sink.emit("build bytes-undecodable".to_string(), "panic".to_string());
+            // `decode` falls back to UTF-8: parse_bytes must not panic on any input
             if kind == 6 {
                 fail_bytes(ctx, "C03", "parse_bytes-panics-on-unknown-encoding-label", "parse_bytes panicked", &bytes);
             } else {
